@@ -134,5 +134,6 @@ pub fn run(cfg: &RunCfg) {
   let corpus = corpus();
   let p = plan(cfg.tier);
   let n = corpus.len() as u64 + seed_packages().len() as u64 + p.n_gen;
+  let _ = p.n_model;
   run_cases(cfg, n, |seed, k| gen_case(seed, k, &corpus));
 }
